@@ -17,13 +17,22 @@ type readerState struct {
 	pos  int
 }
 
+// scannerState follows bufio.Scanner (Go 1.23 scan.go) at buffer level, so that
+// the token limit, the buffer growth / shifting and the aliasing of Bytes() with
+// the internal buffer behave as in the real implementation.
 type scannerState struct {
-	r      *readerState
-	maxTok int
-	tok    []Value
-	err    error
-	done   bool
+	r       *readerState
+	maxTok  int
+	buf     []Value
+	start   int
+	end     int
+	tok     []Value
+	err     error
+	readErr bool // the reader reported io.EOF
+	done    bool
 }
+
+const scanStartBufSize = 4096
 
 func readerOf(v Value) *readerState {
 	switch x := v.(type) {
@@ -54,6 +63,8 @@ func init() {
 	scanner := func(v Value) *scannerState { return v.(*Native).V.(*scannerState) }
 	models["(*bufio.Scanner).Buffer"] = func(p *Path, fn *ssa.Function, a []Value) Value {
 		s := scanner(a[0])
+		sl := a[1].(Slice)
+		s.buf = sl.A[:cap(sl.A)]
 		s.maxTok = int(concreteInt(a[2], "Scanner.Buffer max"))
 		return nil
 	}
@@ -62,46 +73,89 @@ func init() {
 		if s.done {
 			return false
 		}
-		r := s.r
-		if r.pos >= len(r.data) {
-			s.done = true
-			return false
-		}
-		// find the next newline
-		end := -1
-		for i := r.pos; i < len(r.data); i++ {
-			if p.decideVal(p.equalsByte(r.data[i], '\n')) {
-				end = i
-				break
+		for {
+			if s.end > s.start || s.readErr {
+				// ScanLines on buf[start:end]
+				data := s.buf[s.start:s.end]
+				advance := 0
+				var token []Value
+				haveToken := false
+				if !(s.readErr && len(data) == 0) {
+					nl := -1
+					for i, b := range data {
+						if p.decideVal(p.equalsByte(b, '\n')) {
+							nl = i
+							break
+						}
+					}
+					if nl >= 0 {
+						advance, token, haveToken = nl+1, data[:nl], true
+					} else if s.readErr {
+						advance, token, haveToken = len(data), data, true
+					}
+					if haveToken {
+						if n := len(token); n > 0 && p.decideVal(p.equalsByte(token[n-1], '\r')) {
+							token = token[:n-1]
+						}
+					}
+				}
+				s.start += advance
+				if haveToken {
+					s.tok = token
+					return true
+				}
 			}
-			// the buffer (at most maxTok bytes) is full without a line terminator
-			if i-r.pos+1 >= s.maxTok {
+			if s.readErr {
+				s.start, s.end = 0, 0
 				s.done = true
-				s.err = bufio.ErrTooLong
 				return false
 			}
+			// must read more data: first, shift data to the beginning of the buffer
+			if s.start > 0 && (s.end == len(s.buf) || s.start > len(s.buf)/2) {
+				copy(s.buf, s.buf[s.start:s.end])
+				s.end -= s.start
+				s.start = 0
+			}
+			// is the buffer full? if so, resize
+			if s.end == len(s.buf) {
+				if len(s.buf) >= s.maxTok {
+					s.err = bufio.ErrTooLong
+					s.done = true
+					return false
+				}
+				newSize := len(s.buf) * 2
+				if newSize == 0 {
+					newSize = scanStartBufSize
+				}
+				if newSize > s.maxTok {
+					newSize = s.maxTok
+				}
+				nb := make([]Value, newSize)
+				for i := range nb {
+					nb[i] = int64(0)
+				}
+				copy(nb, s.buf[s.start:s.end])
+				s.buf = nb
+				s.end -= s.start
+				s.start = 0
+			}
+			// read (bytes.Reader / strings.Reader semantics: as much as fits, io.EOF when exhausted)
+			r := s.r
+			if r.pos >= len(r.data) {
+				s.readErr = true
+			} else {
+				n := copy(s.buf[s.end:], r.data[r.pos:])
+				r.pos += n
+				s.end += n
+			}
 		}
-		var tok []Value
-		if end >= 0 {
-			tok = r.data[r.pos:end]
-			r.pos = end + 1
-		} else {
-			tok = r.data[r.pos:]
-			r.pos = len(r.data)
-		}
-		// drop a trailing carriage return
-		if n := len(tok); n > 0 && p.decideVal(p.equalsByte(tok[n-1], '\r')) {
-			tok = tok[:n-1]
-		}
-		s.tok = tok
-		return true
 	}
 	models["(*bufio.Scanner).Text"] = func(p *Path, fn *ssa.Function, a []Value) Value {
 		return mkStr(append([]Value(nil), scanner(a[0]).tok...))
 	}
 	models["(*bufio.Scanner).Bytes"] = func(p *Path, fn *ssa.Function, a []Value) Value {
-		t := scanner(a[0]).tok
-		return Slice{A: append(make([]Value, 0, len(t)), t...)}
+		// the token aliases the scanner's buffer, exactly as in bufio
+		return Slice{A: scanner(a[0]).tok}
 	}
 	models["(*bufio.Scanner).Err"] = func(p *Path, fn *ssa.Function, a []Value) Value {
 		s := scanner(a[0])
